@@ -24,7 +24,7 @@ from vf.refs import http_ref as H
 
 ID = 'C14'
 LEVEL = 'exploration'
-RULE = ('Hypothesis draws (form, userinfo?, host kind, port?, path, query) and renders the request-target; damaged variants '
+RULE = ('Hypothesis draws (form, userinfo?, host kind, port?, path, query) and renders the request-target, and draws the Host field (unrelated / the authority of the target / same host with another port / same host without port); damaged variants '
         'mutate a valid target (unbalanced bracket, non-numeric / > 65535 port, empty host, two "@", stray ":"). '
         'Every case is checked at parser level and through the proxy at system level. '
         'Non-trivial: IPv6 literal, explicit non-default port, userinfo or IDNA/UTF-8 host; distinct by target bytes.')
